@@ -169,6 +169,8 @@ type bitcoinStream struct {
 	mempool  []*btcTx // txs to be included in the next block
 	pastDeps []string // deposit items used before (for duplicates)
 	evms     [][]byte
+	// genesisValidTax: generate only deposit-tax requests that leave parameters the genesis validation accepts
+	genesisValidTax bool
 }
 
 func init() {
@@ -741,7 +743,14 @@ func (s *bitcoinStream) genBridgeReq(r *tr.Rng) {
 	}
 	big := []uint64{0, 1, 999, 1000, 1001, 9999, 10000, 10001, 100000000, 100000001, 1<<64 - 1}
 	if r.Chance(25) {
-		tax = append(tax, fmt.Sprintf("%d|%d", big[r.Intn(len(big))], big[r.Intn(len(big))]))
+		if s.genesisValidTax {
+			// only pairs the genesis validation accepts (the others are known finding F7c and would mask every later export)
+			pairs := [][2]uint64{{0, 0}, {1, 1}, {999, 100000000}, {9999, 1000}, {1000, 999}, {1, 100000000}, {5000, 1}}
+			p := pairs[r.Intn(len(pairs))]
+			tax = append(tax, fmt.Sprintf("%d|%d", p[0], p[1]))
+		} else {
+			tax = append(tax, fmt.Sprintf("%d|%d", big[r.Intn(len(big))], big[r.Intn(len(big))]))
+		}
 		cls += "+tax"
 	}
 	if r.Chance(12) {
